@@ -22,6 +22,15 @@ func init() {
 		}
 		return decl.Upper{S: strings.ToUpper(s)}, nil
 	}
+	ref.CustomUnmarshal["OnOff"] = func(s string) (interface{}, error) {
+		switch s {
+		case "on":
+			return decl.OnOff(true), nil
+		case "off":
+			return decl.OnOff(false), nil
+		}
+		return nil, errors.New("neither on nor off")
+	}
 	os.Unsetenv("GO_FLAGS_COMPLETION")
 }
 
@@ -229,7 +238,7 @@ func comparePositionals(c *explore.Ctx, b *decl.Built, res *ref.Result, sigPrefi
 			want = reflect.Zero(a.Type.RT)
 			bad := false
 			for _, t := range texts {
-				cv := ref.ConvScalar(a.Type.RT.Elem(), 10, t)
+				cv := ref.ConvScalar(a.Type.RT.Elem(), a.BaseN(), t)
 				if !cv.HasValue {
 					bad = true
 					break
@@ -243,7 +252,7 @@ func comparePositionals(c *explore.Ctx, b *decl.Built, res *ref.Result, sigPrefi
 			if len(texts) == 0 {
 				want = reflect.Zero(a.Type.RT)
 			} else {
-				cv := ref.ConvScalar(a.Type.RT, 10, texts[len(texts)-1])
+				cv := ref.ConvScalar(a.Type.RT, a.BaseN(), texts[len(texts)-1])
 				if !cv.HasValue {
 					continue
 				}
@@ -293,3 +302,24 @@ func recordStates(c *explore.Ctx, declKey string, res *ref.Result, units []strin
 }
 
 func panicSite() string { return explore.PanicSite() }
+
+// rezero puts every option and positional field back to its zero value and empties the call logs:
+// used after a warm-up parse on the same parser, so that what the next parse stores can be compared
+// with the model's fresh-state expectation while the parser's internal state is the used one.
+func rezero(b *decl.Built) {
+	for o, v := range b.Vals {
+		if o.Type.IsFunc() {
+			*b.Calls[o] = nil
+			continue
+		}
+		if o.Initial != nil {
+			v.Set(reflect.ValueOf(o.Initial).Convert(v.Type()))
+		} else {
+			v.Set(reflect.Zero(v.Type()))
+		}
+	}
+	for _, v := range b.PosVals {
+		v.Set(reflect.Zero(v.Type()))
+	}
+	b.ExecLog = nil
+}
